@@ -282,9 +282,16 @@ def c04_configs():
     return out
 
 
-def c04_case(proto, cfg, tokens, style, lead=None):
+def c04_case(proto, cfg, tokens, style, lead=None, ext=None):
     rp = cfg["request_path"]
     base = "" if rp == "/" else rp.replace("...", "sysA")
+    if ext is not None and base:
+        # a request whose segment only STARTS like the last fixed segment of the configured request path
+        segs = base.split("/")
+        fixed = [i for i, sg in enumerate(rp.split("/")) if sg and "..." not in sg]
+        if fixed:
+            segs[fixed[-1]] += ext
+            base = "/".join(segs)
     req = base + "/" + "/".join(tokens)
     if proto == "tftp" and lead is not None:
         req = lead + req[1:]
@@ -310,6 +317,13 @@ def gen_c04(rng, tier, mult=1):
                 yield c04_case(proto, cfg, [joint.strip("/") + tgt if joint in ("%2f",) else tgt] if joint in ("/", "%2f")
                                else ["", tgt.lstrip("/")] if joint == "//" else [".", tgt], "absolute",
                                lead=("" if proto == "tftp" and rng.random() < 0.5 else None))
+    # look-alike prefixes: /pxe/a.txt, /pp/a.txt, /p-old/... for a handler configured for /p
+    for proto, cfg in cfgs:
+        if cfg["request_path"] == "/":
+            continue
+        for ext in ("xe", "p", "-old", "%2dold", ".", "%2f..", " "):
+            for tail in (TAILS[:3] if "root_dir" in cfg else [[], ["a.txt"]]):
+                yield c04_case(proto, cfg, list(tail), "lookalike-prefix", ext=ext)
     k = 0
 
     def rot():
